@@ -143,6 +143,8 @@ impl Decoder for Socks5UdpCodec {
         if src.is_empty() {
             return Ok(None);
         }
+        // one datagram per call: nothing of a refused datagram stays behind for the next call
+        let mut src = src.split();
         if src.remaining() < 5 {
             bail!("Insufficient length of packet");
         }
@@ -150,8 +152,8 @@ impl Decoder for Socks5UdpCodec {
             bail!("Discarding fragmented payload");
         }
         src.advance(3);
-        let recipient = address::decode(src)?;
-        Ok(Some((src.split_off(0), recipient)))
+        let recipient = address::decode(&mut src)?;
+        Ok(Some((src, recipient)))
     }
 }
 
